@@ -44,6 +44,16 @@ type SimCallback struct {
 // simulator) recovers it and carries on using the table.
 type SimPanic struct{ Reg int }
 
+// simCallbackValue wraps a SimCallback in an uncomparable value type.
+type simCallbackValue struct {
+	cb  *SimCallback
+	pad []int
+}
+
+func (v simCallbackValue) UpdateProperties(po tabular.PropertyOwner) error {
+	return v.cb.UpdateProperties(po)
+}
+
 type markerKey struct{ reg int }
 type colIdentKey struct{}
 
@@ -356,7 +366,14 @@ func (w *World) DoCB(st *Step) (bool, *Violation) {
 				owner = alienOwner{}
 			}
 		}
-		err := w.Tab.RegisterPropertyCallback(owner, cbTimes[cb.time], cbTargets[cb.target], cb)
+		var asRegistered tabular.PropertyCallback = cb
+		if st.E&16 != 0 {
+			// a callback VALUE of a type that cannot be compared with == (it has a
+			// slice field), as a func-typed adapter would be
+			asRegistered = simCallbackValue{cb: cb, pad: []int{cb.id}}
+			w.probe("uncomparable_callback_value")
+		}
+		err := w.Tab.RegisterPropertyCallback(owner, cbTimes[cb.time], cbTargets[cb.target], asRegistered)
 		want := supported(cb.owner, cb.target)
 		if w.Log != nil {
 			w.Log.Add(fmt.Sprintf("register cb#%d %s/%s/%s err=%v", cb.id, ownNames[cb.owner], timeNames[cb.time], targetNames[cb.target], err != nil))
